@@ -26,6 +26,10 @@ let dispatch fn args = match fn, args with
   | "fontFileName", [a; b; c] -> hb (fontFileName (bh a) (bh b) (bh c))
   | "bookmarkFileName", [i; t] -> hb (bookmarkFileName (n_of_hex i) (bh t))
   | "csvName", [r; d] -> hb (multiFillCSVName (bh r) (bh d))
+  | "metadataFileName", [a; b; c; d] -> hb (metadataFileName (bh a) (bh b) (bh c) (bh d))
+  | "splitBookmarks", [d; titles] ->
+      let (w, ok) = splitAlongBookmarks stagedTooLong (bh d) (blist_of_string titles) in
+      (if ok then "ok:" else "error:") ^ String.concat "," (List.sort_uniq compare (List.map hb w))
   | "gobFileName", [p] -> res_b (gobFileName (bh p))
   | "classRange", [lo; n] ->
       String.concat "," (List.map (fun (r, (f, u)) -> hex_of_n r ^ ":" ^ hex_of_n f ^ ":" ^ hex_of_n u)
